@@ -1,0 +1,132 @@
+// Third group of hooks: the same single-step driver with a user event channel of a chosen (small)
+// capacity, so that `.await`s on a full channel inside handlers can be exercised. The driver keeps
+// the `next_event()` future alive across polls when it is parked in the middle of a handler.
+
+use super::*;
+
+use std::marker::PhantomPinned;
+
+/// Outcome of one poll of `NotificationProtocol::next_event()`.
+#[derive(Debug, Clone, Copy, PartialEq, Eq)]
+pub enum VerifPoll {
+    /// An event was handled to completion.
+    Handled,
+    /// No branch of the `select!` was ready.
+    Idle,
+    /// A handler started and is parked on a full user event channel.
+    Parked,
+}
+
+/// What the loop could consume next (used to tell an idle poll from a parked handler).
+#[derive(Debug, Clone, PartialEq, Eq)]
+struct Inputs {
+    service: usize,
+    commands: usize,
+    shutdown: usize,
+    validations: usize,
+    timers: usize,
+}
+
+/// Driver with a bounded user event channel.
+pub struct VerifBounded {
+    inner: Box<VerifNotification>,
+    inflight: Option<Pin<Box<dyn Future<Output = bool>>>>,
+    _pin: PhantomPinned,
+}
+
+impl VerifBounded {
+    /// Like `VerifNotification::new`, with `event_capacity` slots in the user event channel.
+    pub fn new(
+        auto_accept: bool,
+        should_dial: bool,
+        handshake: Vec<u8>,
+        dialable: &[PeerId],
+        event_capacity: usize,
+    ) -> (Self, NotificationHandle) {
+        let (mut inner, mut handle) =
+            VerifNotification::new(auto_accept, should_dial, handshake, dialable);
+        // replace the user event channel by a bounded one of the requested capacity
+        let (event_tx, event_rx) = channel(event_capacity);
+        inner.protocol.event_handle = NotificationEventHandle::new(event_tx);
+        handle.verif_replace_event_rx(event_rx);
+        (
+            Self {
+                inner: Box::new(inner),
+                inflight: None,
+                _pin: PhantomPinned,
+            },
+            handle,
+        )
+    }
+
+    /// The wrapped driver (event injection, tasks, service calls). Protocol state accessors must only
+    /// be used while the loop is not parked.
+    pub fn driver(&mut self) -> &mut VerifNotification {
+        &mut self.inner
+    }
+
+    pub fn is_parked(&self) -> bool {
+        self.inflight.is_some()
+    }
+
+    fn inputs(&self) -> Inputs {
+        let protocol = &self.inner.protocol;
+        Inputs {
+            service: self.inner.event_tx.max_capacity() - self.inner.event_tx.capacity(),
+            commands: protocol.command_rx.len(),
+            shutdown: protocol.shutdown_rx.len(),
+            validations: protocol.pending_validations.len(),
+            timers: protocol.timers.len(),
+        }
+    }
+
+    /// Poll the loop once. A parked handler is resumed instead of starting a new `next_event()`.
+    pub fn poll_event(&mut self) -> VerifPoll {
+        let waker = futures::task::noop_waker();
+        let mut cx = Context::from_waker(&waker);
+        if self.inflight.is_none() {
+            let protocol: *mut NotificationProtocol = &mut self.inner.protocol;
+            // SAFETY (test driver): the protocol lives in a Box that is never moved while the future
+            // exists, the future is dropped before the Box, and nothing else touches the protocol while
+            // the future is being polled.
+            let future: Pin<Box<dyn Future<Output = bool> + '_>> =
+                Box::pin(unsafe { (*protocol).next_event() });
+            let future: Pin<Box<dyn Future<Output = bool> + 'static>> =
+                unsafe { std::mem::transmute(future) };
+            let before = self.inputs();
+            let negotiating_before = self.inner.protocol.negotiation.verif_len();
+            self.inflight = Some(future);
+            match self.inflight.as_mut().expect("just set").as_mut().poll(&mut cx) {
+                Poll::Ready(_) => {
+                    self.inflight = None;
+                    VerifPoll::Handled
+                }
+                Poll::Pending => {
+                    let consumed = before != self.inputs()
+                        || negotiating_before != self.inner.protocol.negotiation.verif_len();
+                    if consumed {
+                        VerifPoll::Parked
+                    } else {
+                        self.inflight = None;
+                        VerifPoll::Idle
+                    }
+                }
+            }
+        } else {
+            match self.inflight.as_mut().expect("checked").as_mut().poll(&mut cx) {
+                Poll::Ready(_) => {
+                    self.inflight = None;
+                    VerifPoll::Handled
+                }
+                Poll::Pending => VerifPoll::Parked,
+            }
+        }
+    }
+}
+
+impl Drop for VerifBounded {
+    fn drop(&mut self) {
+        // the future borrows the protocol: it goes first
+        self.inflight = None;
+    }
+}
